@@ -120,6 +120,11 @@ func (o *orC06) onZK(e *ZKEvent) {
 			if !byDaemon {
 				return
 			}
+			// crash-point families: the first write of the request by a daemon is the start of
+			// its first attempt (whatever that write contains)
+			if m.s.spec.CrashAt != nil && m.s.spec.CrashAt.ArmAfterMs == 0 && m.s.crashInc == "" && !m.s.crashDone {
+				m.s.crashInc = e.Inc
+			}
 			if !sw.StartedAt.Equal(r.lastStarted) {
 				r.lastStarted = sw.StartedAt
 				// StartSwitchover (the result of a previous failed attempt stays in the record)
